@@ -54,6 +54,14 @@ prop('C08', 'proof',
       'patch/header.rs: PatchHeader::parse, PatchFile::parse, verify_base, verify_patched (trusted contract)', 'patch/apply.rs: apply_bsd0_patch header parsing through Cursor (only blocks are verified)'])
 
 
+
+prop('C16', 'proof',
+     'Kani complete harnesses on the real header codec, locator bounds and mip arithmetic; Kani bounded harnesses on E11 blocks of the alpha bit packing',
+     'Partial. Kani complete (full field domains): parse_header(encode_header(h)) == h for BLP0/BLP1/BLP2 (every content kind, defined alpha depth, compression, alpha type, flag value, dimension <= 65535, locator table) and the encoded size equals the header size of the version; get_bounded_slice returns exactly [offset, offset+size) and only when it lies inside the file, for all u32 offset/size (F3 repaired); mipmap_size(i) == (max(w>>i,1), max(h>>i,1)) for all u32 w,h and every level, pixel count is the product and never overflows (F14 repaired); parse_header is total on arbitrary bytes. Kani bounded: the 1-bit and 4-bit alpha packing loops (E11 blocks of convert/raw1.rs) produce ceil(n*bits/8) bytes with pixel i at the bit position the reader unpacks, quantised to the declared depth (<= 10 / <= 6 pixels, partial last byte included).',
+     'mipmaps_count goes through f32::log2, which CBMC does not model bit-precisely: not decided (exercised natively by the blp_mips oracle only). Everything through the image / texpresso crates (mip generation, palette quantisation, DXT, JPEG), parse_direct_content / parse_jpeg_content bodies, raw3, and the whole encode->parse structure equality are NOT under contract. Observed, not decided: convert/mipmap.rs stops at min-side 1 while the header counts by the larger side (F12); read_u32_array pre-allocates count entries taken from the header (F16).',
+     ['parser/mod.rs: parse_blp, parse_content, load_blp*', 'parser/direct/*: parse_blp0, parse_raw1, parse_raw3, parse_dxtn', 'parser/jpeg.rs: parse_jpeg_content',
+      'encode/mod.rs: encode_blp, encode_content, encode_raw*, encode_dxtn, encode_jpeg', 'convert/*: image_to_blp, blp_to_image, raw1/raw3/dxtn/jpeg/mipmap/palette (except the two packing loops)', 'types/header.rs: mipmaps_count (f32::log2)'])
+
 prop('C17', 'proof',
      'Verus contract on extracted StringBlock::get_string / is_string_start; Kani complete harnesses on DbcHeader; Kani bounded on record size and on the key-map E11 block',
      'Partial. Proved unbounded (Verus): StringBlock::get_string returns exactly the bytes from the offset to the first NUL (or block end) and Err for offsets outside the block, for blocks of any size; is_string_start law. Kani complete (all u32 field values): DbcHeader::string_block_offset/total_size obey the size law in 64-bit arithmetic without overflow; DbcHeader::parse decodes little-endian fields and rejects inconsistent counts. Kani bounded: Schema::record_size is the packed sum of field widths (<= 4 fields, arrays <= 3); the hashed key map built by create_sorted_key_map maps every key to a record carrying it (3 records, every order; HashMap replaced by an assoc-list contract). Verus on the E11 interning block of DbcWriter::build_string_block: an already interned string changes neither the map nor the block (identical strings stored once), a new string is appended once, NUL-terminated, at the recorded offset (HashMap<String,u32> replaced by a trusted map contract).',
